@@ -384,6 +384,9 @@ ADD_TEXT["C18"] += (" Round 7: 'a monitor can affect nothing' is now a theorem o
 ADD_TEXT["C04"] += (" Round 7: in every reachable state whoever stands in a queue is a connected connection and no monitor (queue_members_are_connected), a connection's services_owned list "
                    "covers every queue it stands in (owned_names_cover_queues) - so the disconnect path and BecomeMonitor, which walk that list, really take it out of every queue "
                    "(gone_connection_in_no_queue).")
+ADD_TEXT["C09"] += (" Round 7: in every reachable state of the core bus each slot is between two connected clients, neither a monitor (slots_between_connected_clients) - a slot ends "
+                    "by the callee's reply, by expiry or by one of the two disconnecting, never by being forgotten.")
+ADD_TEXT["C05"] += (" Round 7: the owner a unicast message is handed to is a connected client in every reachable state (primary_owner_is_connected).")
 NEW_NOTE = {
     "C09": "Partial: 'exactly one NoReply' is 'at most one, exactly one unless the caller's own receive policy refuses the bus's error'; when a recipient's queue is full is an input of the "
            "environment (stall events), not computed from message sizes; timer precision is not modelled (the virtual clock only ever stands at least 100 s away from any deadline).",
